@@ -25,7 +25,22 @@ def make_str_arg(funcs):
     return None
 
 
-def run_path(binary, d, which, timeout=10):
+STALE = {}
+
+
+def stale_blob(binary, work):
+    """A long, valid main.mmm from an earlier compilation: the output path may already exist (history of the
+    directory is part of the input space: a re-compilation must replace the file, not overwrite its head)."""
+    if "blob" not in STALE:
+        d = C.fresh_dir(Path(work) / "stale")
+        body = "".join(f'x{k} = "{"pad" * 20}{k}"\nprint x{k}\n' for k in range(40))
+        (d / "main.ms").write_text(body)
+        r = C.run_proc([binary, "compile", "main.ms", "--quick"], cwd=d, timeout=20)
+        STALE["blob"] = (d / "main.mmm").read_bytes() if r["exit"] == 0 and (d / "main.mmm").exists() else b""
+    return STALE["blob"]
+
+
+def run_path(binary, d, which, timeout=10, stale=b""):
     """which in run|exec|text ; d contains main.ms. Returns dict(exit,out,dump,funcs,err)."""
     dump = d / f"{which}.dump.ndjson"
     if dump.exists():
@@ -36,6 +51,8 @@ def run_path(binary, d, which, timeout=10):
     else:
         for f in d.glob("*.mmm"):
             f.unlink()
+        if stale:
+            (d / "main.mmm").write_bytes(stale)
         if which == "exec":
             rc = C.run_proc([binary, "compile", "main.ms", "--quick"], cwd=d, timeout=timeout)
         else:
@@ -71,7 +88,7 @@ def literal_cases(work, maxlen):
     return cases, g
 
 
-def observe_literal(binary, root, case, want_text):
+def observe_literal(binary, root, case, want_text, stale=b""):
     d = slot(root)
     body = "".join(case["body"])
     src = 'print "' + body + '"\nprint "END"\n'
@@ -81,8 +98,8 @@ def observe_literal(binary, root, case, want_text):
     ob = dict(id="lit:" + json.dumps(body, ensure_ascii=False), body=case["body"], is_literal_case=True, src=src,
               compiled=compiled, run=run)
     if compiled:
-        ob["exec"] = run_path(binary, d, "exec")
-        ob["text"] = run_path(binary, d, "text") if want_text else run
+        ob["exec"] = run_path(binary, d, "exec", stale=stale)
+        ob["text"] = run_path(binary, d, "text", stale=stale) if want_text else run
         a = make_str_arg(run["funcs"])
         ob["mem_arg"] = list(a) if a is not None else ["<none>"]
     else:
@@ -92,7 +109,7 @@ def observe_literal(binary, root, case, want_text):
     return ob
 
 
-def observe_program(binary, root, src_path, want_text, pid):
+def observe_program(binary, root, src_path, want_text, pid, stale=b""):
     """whole-program equivalence for an existing source file (its directory is copied)."""
     d = slot(root)
     src_path = Path(src_path)
@@ -110,8 +127,8 @@ def observe_program(binary, root, src_path, want_text, pid):
     ob = dict(id=pid, body=[], is_literal_case=False, src=src_path.read_text(errors="replace"), compiled=compiled and stable, run=run,
               nondeterministic=not stable, mem_arg=[], has_text=bool(want_text))
     if compiled and stable:
-        ob["exec"] = run_path(binary, d, "exec", timeout=6)
-        ob["text"] = run_path(binary, d, "text", timeout=6) if want_text else run
+        ob["exec"] = run_path(binary, d, "exec", timeout=6, stale=stale)
+        ob["text"] = run_path(binary, d, "text", timeout=6, stale=stale) if want_text else run
     else:
         ob["exec"] = ob["text"] = run
     shutil.rmtree(d, ignore_errors=True)
@@ -156,7 +173,9 @@ def run_check(pid, tier, want_text):
         if k not in seen:
             seen.add(k)
             todo.append(c)
-    obs = C.pmap(lambda c: observe_literal(binary, root, c, want_text), todo)
+    blob = stale_blob(binary, work)
+    # every third case compiles over a longer main.mmm left by an earlier compilation
+    obs = C.pmap(lambda kc: observe_literal(binary, root, kc[1], want_text, stale=(blob if kc[0] % 3 == 0 else b"")), list(enumerate(todo)))
     # whole programs: example corpus (+ a sample of generated control-flow programs)
     srcs = corpus.copy_examples(work / "examples")
     pool = progpool.programs(binary, work / "pool", "quick", rep.seed)
@@ -166,7 +185,7 @@ def run_check(pid, tier, want_text):
     progs = [(str(Path(s).relative_to(work)), s) for s in srcs] + [("pool/" + str(Path(s).relative_to(work / "pool")), s) for s in pool]
     if want_text:
         progs = [(i, s) for i, s in progs if "import " not in Path(s).read_text(errors="replace")]
-    pobs = C.pmap(lambda x: observe_program(binary, root, x[1], want_text, x[0]), progs)
+    pobs = C.pmap(lambda kx: observe_program(binary, root, kx[1][1], want_text, kx[1][0], stale=(blob if kx[0] % 2 == 0 else b"")), list(enumerate(progs)))
     allobs = obs + pobs
     r = judge(work, allobs)
     byid = {o["id"]: o for o in allobs}
@@ -189,7 +208,7 @@ def run_check(pid, tier, want_text):
         not_a_single_literal=not_literal, literals_rejected_by_compiler=sum(1 for o in obs if not o["compiled"]),
         programs=len(pobs), programs_nondeterministic_excluded=sum(1 for o in pobs if o.get("nondeterministic")),
         programs_not_compiling=sum(1 for o in pobs if not o["compiled"] and not o.get("nondeterministic")),
-        model_mismatches=len(mism), spec_theorems_checked=["C04_ArgumentsReadBackAsEmitted", "C18_TextFormRoundTrips", "CanonDecodes"],
+        model_mismatches=len(mism), compiled_over_a_longer_existing_output=sum(1 for k in range(len(todo)) if k % 3 == 0) + sum(1 for k in range(len(progs)) if k % 2 == 0), spec_theorems_checked=["C04_ArgumentsReadBackAsEmitted", "C18_TextFormRoundTrips", "CanonDecodes"],
         evaluations=len(allobs), distinct_nontrivial=sum(1 for o in obs if any(ch in '"\\ \t\n\r' for ch in o["body"])),
         rule=f"GenCodec.tla BFS: all strings of length <= {maxlen} over the 10-character alphabet of format-special characters, each as literal body (if it is one literal) and via its canonical source text; plus whole programs (example corpus, sample of generated programs); non-trivial = contains a format-special character",
         exhaustive=True,
